@@ -27,6 +27,9 @@ RULES = {
     "C03-L5": "the cold path of a lazily cached accessor only builds the cache, it never answers by itself",
     "C03-W1": "rotation around an edge: the sort keys handed out by the two walks (and the key of the starting cell) are pairwise distinct",
     "C03-P2": "the index maps of the boundary range over exactly the border classification (boundary_faces / their vertices / boundary_edges)",
+    "C03-E1": "incidence tables are filled from every incidence: edge->faces / edge->cells from every edge of every face, vertex->cells from every "
+              "vertex of every cell, adjacent cell keyed by (cell, local face) with the cell on the other side",
+    "C03-D2": "definitional accessors (other_face_side, cell_to_cell) return what their definition says",
     "C03-D1": "boundary-connectivity queries translate their argument with m2b_<kind> and every result with b2m_<kind of the result>",
 }
 
@@ -45,6 +48,8 @@ def run(ctx):
     w1_edge_rotation(ctx)
     p2_map_domains(ctx)
     d1_boundary_translation(ctx)
+    e1_incidence_tables(ctx)
+    d2_definitional(ctx)
 
 
 def t1_tables(ctx):
@@ -366,3 +371,106 @@ def d1_boundary_translation(ctx):
         ctx.check(res_ok, "C03-D1", site, f"{fn.name}: results are not translated back with self.b2m_{rkind} (or the query is not made with the boundary index)",
                   "mixing the two directions of the index maps answers with indices of the wrong mesh", note=f"{fn.name}: m2b_{akind} in, b2m_{rkind} out")
     ctx.require_count("C03-D1 translated queries", n, 5)
+
+
+# ---------------------------------------------------------------------------- E1
+def e1_incidence_tables(ctx):
+    repo = ctx.repo
+    fn = repo.func(VOL, "VolumeMesh._Connectivity._compute_edge_id")
+    site = ctx.site(VOL, fn)
+    b = sym.Bindings(fn)
+    okF = okC = False
+    for st in au.stmts(fn.body):
+        if isinstance(st, ast.For) and au.src(st.iter) in ("self.mesh.id_faces", "range(len(self.mesh.faces))") and isinstance(st.target, ast.Name):
+            f = st.target.id
+            for s2 in st.body:
+                if isinstance(s2, ast.For) and au.src(s2.iter) == f"self.face_to_edges({f})" and isinstance(s2.target, ast.Name):
+                    e = s2.target.id
+                    for s3 in s2.body:
+                        if isinstance(s3, ast.Expr) and isinstance(s3.value, ast.Call) and au.call_tail(s3.value) in ("append", "add") \
+                                and au.src(s3.value.func.value) == f"self._adjE2F[{e}]" and au.src(s3.value.args[0]) == f:
+                            okF = True
+                        if isinstance(s3, ast.AugAssign) and isinstance(s3.op, ast.BitOr) and au.src(s3.target) == f"self._adjE2C[{e}]":
+                            v = b.resolve(s3.value, at=s3, keep=(f,))
+                            okC = au.src(v) in (f"set(self.face_to_cells({f}))",)
+    ctx.check(okF, "C03-E1", site, "edge -> faces is not filled with every face for each of its edges", "", note="_adjE2F from face_to_edges of every face")
+    ctx.check(okC, "C03-E1", site, "edge -> cells is not the union of the cells of every face containing the edge", "", note="_adjE2C union of face_to_cells")
+    fn = repo.func(VOL, "VolumeMesh._Connectivity._compute_connectivity")
+    ok = False
+    for st in au.stmts(fn.body):
+        if isinstance(st, ast.For) and isinstance(st.iter, ast.Call) and au.call_tail(st.iter) == "enumerate" \
+                and au.src(st.iter.args[0]) == "self.mesh.cells" and isinstance(st.target, ast.Tuple):
+            iC, C = (x.id for x in st.target.elts)
+            for s2 in st.body:
+                if isinstance(s2, ast.For) and au.src(s2.iter) == C and isinstance(s2.target, ast.Name):
+                    V = s2.target.id
+                    ok = any(isinstance(s3, ast.Expr) and isinstance(s3.value, ast.Call) and au.call_tail(s3.value) in ("add", "append")
+                             and au.src(s3.value.func.value) == f"self._adjV2C[{V}]" and au.src(s3.value.args[0]) == iC for s3 in s2.body)
+    ctx.check(ok, "C03-E1", ctx.site(VOL, fn), "vertex -> cells is not filled with every cell for each of its vertices", "", note="_adjV2C from every vertex of every cell")
+    fn = repo.func(VOL, "VolumeMesh._Connectivity._compute_adjacent_cell")
+    site = ctx.site(VOL, fn)
+    ok = False
+    for st in au.stmts(fn.body):
+        if isinstance(st, ast.Assign) and isinstance(st.targets[0], ast.Subscript) and au.is_self_attr(st.targets[0].value, "_adjC2C"):
+            loops = [a for a in au.ancestors(st) if isinstance(a, ast.For)]
+            if len(loops) < 3:
+                continue
+            inner, mid, outer = loops[0], loops[1], loops[2]
+            iC = outer.target.elts[0].id if isinstance(outer.target, ast.Tuple) else None
+            iF, F = (x.id for x in mid.target.elts) if isinstance(mid.target, ast.Tuple) else (None, None)
+            c2 = inner.target.id if isinstance(inner.target, ast.Name) else None
+            gs = au.guards(st, stop=inner)
+            ok = au.src(st.targets[0].slice) == f"({iC}, {iF})" and au.src(st.value) == c2 and au.src(inner.iter) == f"self.face_to_cells({F})" \
+                and len(gs) == 1 and gs[0][1] and isinstance(gs[0][0], ast.Compare) and isinstance(gs[0][0].ops[0], ast.NotEq) \
+                and {au.src(gs[0][0].left), au.src(gs[0][0].comparators[0])} == {c2, iC} \
+                and isinstance(mid.iter, ast.Call) and au.call_tail(mid.iter) == "enumerate"
+    ctx.check(ok, "C03-E1", site, "adjacent cell is not `adj[(cell, local face)] = the other cell of that face`",
+              "cell-to-cell adjacency must list, per local face, the cell across it", note="_adjC2C[(iC, iF)] = other cell of face iF")
+
+
+# ---------------------------------------------------------------------------- D2
+def d2_definitional(ctx):
+    repo = ctx.repo
+    fn = repo.func(VOL, "VolumeMesh._Connectivity.other_face_side")
+    site = ctx.site(VOL, fn)
+    C, F = au.params(fn, skip_self=True)[:2]
+    names = None
+    gate = False
+    rest = []
+    for st in fn.body:
+        if isinstance(st, ast.Assign) and isinstance(st.targets[0], ast.Tuple) and len(st.targets[0].elts) == 2 \
+                and au.src(st.value) == f"self.face_to_cells({F})":
+            names = [x.id for x in st.targets[0].elts]
+        elif isinstance(st, ast.If) and au.src(st.test).replace(" ", "") == f"len(self.face_to_cells({F}))!=2" and isinstance(st.body[0], ast.Return) \
+                and (st.body[0].value is None or au.src(st.body[0].value) == "None"):
+            gate = True
+        elif not (isinstance(st, ast.Expr) and isinstance(st.value, ast.Constant)):
+            rest.append(st)
+    ok = False
+    if names and gate:
+        try:
+            f = order.return_formula(rest)
+            pred = order.Pred(lambda node: {C: "C", names[0]: "A", names[1]: "B"}.get(au.src(node)) or (_ for _ in ()).throw(order.Unsupported(au.src(node))))
+            ok = True
+            for env in order.envs({"C", "A", "B"}, set()):
+                if env["A"] == env["B"]:
+                    continue
+                got = order.eval_formula(f, pred, env, leaf=lambda e, en: None if e is None or au.src(e) == "None" else {names[0]: "A", names[1]: "B"}.get(au.src(e), "?"))
+                want = "B" if env["C"] == env["A"] else ("A" if env["C"] == env["B"] else None)
+                ok = ok and got == want
+        except order.Unsupported:
+            ok = False
+    ctx.check(ok, "C03-D2", site, "other_face_side(C, F) is not `the other cell of an interior face F of C, else None`", "", note="other_face_side")
+    fn = repo.func(VOL, "VolumeMesh._Connectivity.cell_to_cell")
+    site = ctx.site(VOL, fn)
+    iC = au.params(fn, skip_self=True)[0]
+    rets = [st for st in fn.body if isinstance(st, ast.Return)]
+    ok = False
+    if rets and isinstance(rets[-1].value, ast.ListComp):
+        v = rets[-1].value
+        g = v.generators[0]
+        i = g.target.id if isinstance(g.target, ast.Name) else None
+        elt = f"self._adjC2C[{iC}, {i}]"
+        ok = au.src(v.elt) == elt and au.src(g.iter) == f"range(len(self.mesh.cells[{iC}]))" and len(g.ifs) == 1 \
+            and au.src(g.ifs[0]).replace(" ", "") in (f"{elt}!=config.NOT_AN_ID".replace(" ", ""),)
+    ctx.check(ok, "C03-D2", site, "cell_to_cell is not `adjacent cell across each local face, missing neighbours dropped`", "", note="cell_to_cell")
